@@ -32,6 +32,17 @@ def run(v):
                                 ledger_every=(3 if q else 1), trace_module="GroupLineTrace", name="C07p",
                                 driver={"defs": D.alt_pos_family(SEED + 1790, 24, maxlen=4, budget=10**9), "n": 5000 if q else 100000, "gen": gen})
     cov = merge_cov(cov, pcov, "alt_pos")
+    # branches that hold environment-backed flags and arguments, the variable set or not: a typed item is still its
+    # branch's item (consumed, it decides the choice), the variable alone selects the first branch it satisfies
+    efam = D.alt_env_family(SEED + 795, 12 if q else 60, maxlen=2 if q else 3, budget=1500 if q else 12000)
+    for d in efam:
+        # (values that do not convert are C06's and C18's business - finding F18 lives there)
+        d["alpha"]["envvals"] = [x for x in d["alpha"]["envvals"] if x != "x"]
+        for it in D.field_leaves(d["named"][-1]):
+            it["guard"] = False
+    ecov = run_cmdline_property(v, efam, None, replay_cfg="MC_GroupLine_replay.cfg", module="MC_GroupLine",
+                                signature=cmdline_sig.signature, trace_module="GroupLineTrace", name="C07e")
+    cov = merge_cov(cov, ecov, "alt_env")
     # ties between branches that succeed on nothing; the `choice` function as the entry point
     tfam = D.alt_tie_family(SEED + 791, 16 if q else 64, maxlen=3 if q else 4, budget=2500 if q else 25000)
     tcov = run_cmdline_property(v, tfam, None, replay_cfg="MC_GroupLine_replay.cfg", module="MC_GroupLine", signature=cmdline_sig.signature,
